@@ -340,6 +340,7 @@ func gen(t *rapid.T) Case {
 			c.Good, c.Hostile = set.Texts(), false
 		}
 	}
+	famFrom, famTo := -1, -1
 	if rapid.IntRange(0, 3).Draw(t, "revision-family") == 0 {
 		// several revisions of one module, and modules that import it with and without a revision-date: what
 		// the bare name and the prefix denote changes when a later revision is loaded after a processing run
@@ -350,6 +351,13 @@ func gen(t *rapid.T) Case {
 		undated := rapid.IntRange(0, 2).Draw(t, "oldest-without-revision") == 0
 		// the members may include a submodule that holds an identity and a typedef they build on
 		withSub := rapid.IntRange(0, 2).Draw(t, "family-submodule") == 0
+		// a family without a single typedef (and nothing else in the pool): whatever is remembered per typedef
+		// or per "the typedefs were resolved" has nothing to hang on
+		bare := rapid.IntRange(0, 3).Draw(t, "family-without-typedefs") == 0
+		if bare {
+			c.Good, c.Hostile, withSub = nil, false, false
+		}
+		famFrom = len(c.Good)
 		for i := 0; i < n; i++ {
 			name, rev, inc, viaSub := "fam@"+dates[i]+".yang", " revision "+dates[i]+";\n", "", ""
 			if i == 0 && undated {
@@ -357,7 +365,11 @@ func gen(t *rapid.T) Case {
 			}
 			if withSub {
 				inc = " include famsub;\n"
-				viaSub = fmt.Sprintf(" identity viasub%d { base sid; }\n leaf vs { type st; }\n", i)
+				viaSub = fmt.Sprintf(" identity viasub%d { base sid; }\n leaf vs { type st; }\n typedef stu { type union { type st; type int8; } }\n leaf vsu { type stu; }\n", i)
+			}
+			if bare {
+				c.Good = append(c.Good, ymodel.Source{Name: name, Text: fmt.Sprintf("module fam {\n namespace \"urn:fam\";\n prefix f;\n%s grouping g { leaf from-r%d { type %s; } }\n identity id;\n identity sub%d { base id; }\n leaf ll { type identityref { base id; } }\n container c%d { leaf own { type %s; } }\n container c { }\n}\n", rev, i, kinds[i], i, i, kinds[i])})
+				continue
 			}
 			c.Good = append(c.Good, ymodel.Source{Name: name, Text: fmt.Sprintf("module fam {\n namespace \"urn:fam\";\n prefix f;\n%s%s typedef t { type %s; units \"r%d\"; }\n grouping g { leaf from-r%d { type t; } }\n identity id;\n identity sub%d { base id; }\n typedef lt { type identityref { base id; } }\n leaf ll { type lt; }\n%s container c%d { leaf own { type t; } }\n container c { }\n}\n", inc, rev, kinds[i], i, i, i, viaSub, i)})
 		}
@@ -368,15 +380,48 @@ func gen(t *rapid.T) Case {
 				c.Good = append(c.Good, ymodel.Source{Name: "famsub@2021-12-31.yang", Text: "submodule famsub {\n belongs-to fam { prefix f; }\n revision 2021-12-31;\n identity sid;\n identity sd21 { base sid; }\n typedef st { type identityref { base sid; } units \"later\"; }\n leaf insub { type st; }\n leaf insub21 { type st; }\n}\n"})
 			}
 		}
-		c.Good = append(c.Good, ymodel.Source{Name: "famuser.yang", Text: "module famuser {\n namespace \"urn:famuser\";\n prefix u;\n import fam { prefix f; }\n leaf l { type f:t; }\n container k { uses f:g; }\n grouping lg { uses f:g; leaf viat { type f:t; } }\n container k2 { uses lg; }\n leaf r { type identityref { base f:id; } }\n typedef tid { type identityref { base f:id; } }\n leaf viatd { type tid; }\n typedef tt { type f:t; }\n leaf viatt { type tt; }\n identity mine { base f:id; }\n augment \"/f:c\" { leaf added { type string; } }\n}\n"})
+		if bare {
+			c.Good = append(c.Good, ymodel.Source{Name: "famuser.yang", Text: "module famuser {\n namespace \"urn:famuser\";\n prefix u;\n import fam { prefix f; }\n container k { uses f:g; }\n grouping lg { uses f:g; }\n container k2 { uses lg; }\n leaf r { type identityref { base f:id; } }\n leaf ru { type union { type identityref { base f:id; } type int8; } }\n identity mine { base f:id; }\n augment \"/f:c\" { leaf added { type string; } }\n}\n"})
+		} else {
+			// the importer reaches the family's definitions through a varying selection of shapes
+			user := "module famuser {\n namespace \"urn:famuser\";\n prefix u;\n import fam { prefix f; }\n leaf l { type f:t; }\n container k { uses f:g; }\n"
+			for _, sn := range []string{
+				" grouping lg { uses f:g; leaf viat { type f:t; } }\n container k2 { uses lg; }\n",
+				" leaf r { type identityref { base f:id; } }\n",
+				" typedef tid { type identityref { base f:id; } }\n leaf viatd { type tid; }\n",
+				" typedef tt { type f:t; }\n leaf viatt { type tt; }\n typedef tt3 { type tt; }\n leaf viatt3 { type tt3; }\n",
+				" identity mine { base f:id; }\n",
+				" augment \"/f:c\" { leaf added { type string; } }\n",
+				" typedef tu { type union { type f:t; type int8; } }\n leaf viatu { type tu; }\n typedef tu2 { type tu; }\n leaf viatu2 { type tu2; }\n",
+				" typedef tuu { type union { type union { type f:t; type f:lt; } type uint8; } }\n leaf-list viatuu { type tuu; }\n",
+				" leaf lu { type union { type f:t; type f:lt; } }\n",
+				" container kk { typedef inner { type f:t; } typedef inneru { type union { type inner; } } leaf x { type inner; } leaf y { type inneru; } }\n",
+				" rpc op { input { uses f:g; leaf a { type f:t; } } output { typedef ot { type union { type f:t; } } leaf b { type ot; } } }\n",
+				" choice ch { case ca { uses f:g; } leaf cb { type f:lt; } }\n",
+				" notification ev { leaf-list n { type f:t; } }\n",
+				" augment \"/f:c\" { container viaaug { uses f:g; leaf at { type f:t; } } }\n",
+			} {
+				if rapid.IntRange(0, 3).Draw(t, "user-shape") != 0 {
+					user += sn
+				}
+			}
+			c.Good = append(c.Good, ymodel.Source{Name: "famuser.yang", Text: user + "}\n"})
+		}
 		if rapid.Bool().Draw(t, "dated-user") {
 			lo := 0
 			if undated {
 				lo = 1
 			}
 			d := dates[rapid.IntRange(lo, n-1).Draw(t, "dated-user-revision")]
-			c.Good = append(c.Good, ymodel.Source{Name: "famuser2.yang", Text: fmt.Sprintf("module famuser2 {\n namespace \"urn:famuser2\";\n prefix u;\n import fam { prefix f; revision-date %s; }\n leaf l { type f:t; }\n container k { uses f:g; }\n augment \"/f:c\" { leaf added2 { type string; } }\n}\n", d)})
+			l := " leaf l { type f:t; }\n typedef du { type union { type f:t; } }\n leaf dl { type du; }\n"
+			if bare {
+				l = " leaf l { type identityref { base f:id; } }\n"
+			}
+			c.Good = append(c.Good, ymodel.Source{Name: "famuser2.yang", Text: fmt.Sprintf("module famuser2 {\n namespace \"urn:famuser2\";\n prefix u;\n import fam { prefix f; revision-date %s; }\n%s container k { uses f:g; }\n augment \"/f:c\" { leaf added2 { type string; } }\n}\n", d, l)})
 		}
+	}
+	if famFrom >= 0 {
+		famTo = len(c.Good)
 	}
 	if !c.Hostile && rapid.IntRange(0, 5).Draw(t, "namespace-twin") == 0 && len(set.Modules) > 0 {
 		// a module of another name, without revision, that claims the namespace of a module of the pool: what a
@@ -393,8 +438,24 @@ func gen(t *rapid.T) Case {
 		}
 	}
 	order := schema.Order(t, len(c.Good))
+	maxOps := 12
+	if famFrom >= 0 {
+		maxOps = 16
+		if rapid.IntRange(0, 2).Draw(t, "family-first") != 0 {
+			// the texts of the family come first (in the order drawn), so that the history plays among them
+			var fam, rest []int
+			for _, i := range order {
+				if i >= famFrom && i < famTo {
+					fam = append(fam, i)
+				} else {
+					rest = append(rest, i)
+				}
+			}
+			order = append(fam, rest...)
+		}
+	}
 	next := 0
-	n := rapid.IntRange(2, 12).Draw(t, "ops")
+	n := rapid.IntRange(2, maxOps).Draw(t, "ops")
 	for i := 0; i < n; i++ {
 		switch rapid.IntRange(0, 9).Draw(t, "op") {
 		case 0, 1, 2:
